@@ -143,3 +143,65 @@ def problem_model(prog, rep=None) -> ProblemModel:
         raise AnalysisError("no model fields found in Problem (idiom not recognised)")
 
     return ProblemModel(P, init, inval, reset, init_attrs, cache_attrs, model_attrs, assigned_outside)
+
+
+def bound_expr_problem(expr, env=None):
+    """A variable bound may be used as is, or defaulted under an `is (not) None` test.  A TRUTHINESS test on a bound
+    (`v.ub or inf`, `if v.ub and ...`) treats the legitimate bound 0 as "no bound".  Returns a description or None."""
+    env = env or {}
+    e = expr
+    if isinstance(e, ast.Name) and e.id in env:
+        e = env[e.id]
+    def is_bound(n):
+        return isinstance(n, ast.Attribute) and n.attr in ("lb", "ub")
+    for n in ast.walk(e):
+        if isinstance(n, ast.BoolOp):
+            for v in n.values:
+                if is_bound(v):
+                    return f"`{src(n)[:60]}` tests the truthiness of {src(v)}: a bound of exactly 0 is treated as absent"
+        if isinstance(n, ast.IfExp) and is_bound(n.test):
+            return f"`{src(n)[:60]}` tests the truthiness of {src(n.test)}: a bound of exactly 0 is treated as absent"
+        if isinstance(n, ast.UnaryOp) and isinstance(n.op, ast.Not) and is_bound(n.operand):
+            return f"`{src(n)[:60]}` tests the truthiness of a bound"
+    return None
+
+
+def cache_inplace_mutations(prog, pm):
+    """In-place modifications of objects reachable from a Problem cache inside consumer functions:
+    [(function, node, description)]."""
+    out = []
+    for fi in prog.functions.values():
+        recv = problem_receivers(fi)
+        if not recv:
+            continue
+        asg = local_assignments(fi.node)
+        # names bound to the cache object, or to one of its fields / entries
+        level0 = {nm for nm, vals in asg.items() for v in vals if isinstance(v, ast.Attribute) and dotted(v.value) in recv and v.attr in pm.cache_attrs}
+        level1 = {}
+        for nm, vals in asg.items():
+            for v in vals:
+                if isinstance(v, ast.Attribute) and isinstance(v.value, ast.Name) and v.value.id in level0:
+                    level1[nm] = f"{v.value.id}.{v.attr}"
+                if isinstance(v, ast.Subscript) and isinstance(v.value, ast.Name) and v.value.id in level0:
+                    level1[nm] = src(v)
+        for n in walk_local(fi.node, include_self=False):
+            if isinstance(n, ast.AugAssign):
+                t = n.target
+                base = t.value if isinstance(t, (ast.Subscript, ast.Attribute)) else t
+                if isinstance(t, ast.Name) and t.id in level1:
+                    out.append((fi, n, f"`{src(n)[:50]}` modifies {level1[t.id]} (part of the cached object) in place"))
+                elif isinstance(base, ast.Name) and base.id in (set(level1) | level0) and not isinstance(t, ast.Name):
+                    out.append((fi, n, f"`{src(n)[:50]}` modifies the cached object in place"))
+            if isinstance(n, ast.Assign):
+                for t in n.targets:
+                    if isinstance(t, ast.Attribute) and isinstance(t.value, ast.Name) and t.value.id in level0:
+                        out.append((fi, n, f"`{src(n)[:50]}` overwrites a field of the cached object"))
+                    if isinstance(t, ast.Subscript) and isinstance(t.value, ast.Name) and t.value.id in level1:
+                        out.append((fi, n, f"`{src(n)[:50]}` writes into {level1[t.value.id]} (part of the cached object)"))
+            if isinstance(n, ast.Call) and isinstance(n.func, ast.Attribute) and n.func.attr in MUTATING_METHODS and isinstance(n.func.value, ast.Name) and n.func.value.id in level1:
+                out.append((fi, n, f"`{src(n)[:50]}` mutates {level1[n.func.value.id]} (part of the cached object)"))
+            if isinstance(n, ast.Call) and dotted(n.func) in ("np.negative", "np.multiply", "np.add") and any(k.arg == "out" for k in n.keywords):
+                outk = [k.value for k in n.keywords if k.arg == "out"][0]
+                if isinstance(outk, ast.Name) and outk.id in level1:
+                    out.append((fi, n, f"`{src(n)[:50]}` writes into {level1[outk.id]} in place"))
+    return out
